@@ -14,6 +14,7 @@ CARRIER = re.compile(
     r"|std::time::SystemTime|storage::stream::StreamId|std::option::Option<storage::stream::StreamId>"
     r"|std::result::Result<std::option::Option<%(N)s>, .*>|std::option::Option<\(%(N)s, %(N)s\)>"
     r"|std::sync::atomic::Atomic<%(N)s>"
+    r"|\(std::option::Option<%(N)s>, std::option::Option<%(N)s>\)|\(&?std::option::Option<%(N)s>, &?std::option::Option<%(N)s>\)"
     r")$" % {"N": NUM})
 
 PARSE = re.compile(r"^core::str::<impl str>::parse::<(%s)>$" % NUM)
@@ -776,6 +777,12 @@ def sinks(T, fn, kinds=("panic", "alloc")):
                 # subtrahend is tainted: need rel (b <= a) or hi on b with a untainted length
                 pass
             guarded = all(sink_guarded(T, b, i, o, m, other_of(o)) for o in which)
+            if m == "BoundsCheck" and len(ops) == 2:
+                v = length_guard_verdict(b, i, ops[1], ops[0])
+                if v == "short":
+                    guarded = False      # the only comparable length test is off by k for this index
+                elif v == "ok":
+                    guarded = True
             yield {"bb": i, "kind": "arith" if m != "BoundsCheck" else "index", "what": m, "origin": T.op_t(tl, which[0]), "guarded": guarded, "line": t.get("line")}
         elif t["k"] == "call":
             f = t["f"] or ""
@@ -785,7 +792,247 @@ def sinks(T, fn, kinds=("panic", "alloc")):
                 which = [t["a"][k] for k in idxs if k < len(t["a"]) and T.op_t(tl, t["a"][k])]
                 if not which:
                     continue
+                ranges = [o for o in which if not op_is_const(o) and b.locals[op_place(o)["l"]].startswith("std::ops::Range")]
                 which = [x for o in which for x in expand_range(T, b, tl, o)]
                 guarded = all(sink_guarded(T, b, i, o, kind, other=(which[-1] if (len(which) == 2 and o is which[0]) else None)) for o in which)
+                if guarded and kind == "index":
+                    # a two-ended range also needs start <= end: both ends below the length is
+                    # not enough (`&v[5..=2]` panics)
+                    for ro in ranges:
+                        ends = range_ends(b, ro)
+                        if ends and not op_is_const(ends[0]) and not op_is_const(ends[1]) and T.op_t(tl, ends[0]) and T.op_t(tl, ends[1]):
+                            if not range_order_known(T, b, i, ends[0], ends[1]):
+                                guarded = False
                 yield {"bb": i, "kind": kind, "what": shared.short_callee(f), "origin": T.op_t(tl, which[0]), "guarded": guarded, "line": t.get("line")}
                 break
+
+
+
+# ---------------------------------------------------------------------------------------------
+# linear forms: is the dominating length test strong enough for THIS index (off-by-k guards)?
+def _container_root(b, o, depth=6):
+    """named/param local a slice/Vec operand is a copy/reborrow/deref of"""
+    if op_is_const(o) or depth == 0:
+        return None
+    pl = op_place(o)
+    l = pl["l"]
+    defs = prov.build_defs(b).get(l, ())
+    if 1 <= l <= b.nargs and not defs:
+        return l
+    if len(defs) != 1:
+        return l
+    kind, db, d = defs[0]
+    if kind == "stmt" and not d["l"]["p"]:
+        r = d["r"]
+        if r["k"] == "use" and not op_is_const(r["o"]):
+            return _container_root(b, r["o"], depth - 1)
+        if r["k"] == "ref":
+            return _container_root(b, {"cp": {"l": r["p"]["l"], "p": []}}, depth - 1)
+    if kind == "call" and re.search(r"Deref(Mut)?>::deref(_mut)?$|::as_slice$|::as_bytes$|::as_ref$", d["f"] or "") and d["a"]:
+        return _container_root(b, d["a"][0], depth - 1)
+    return l
+
+
+def linform(b, o, depth=10):
+    """(atoms: {atom: coeff}, const) with atoms = ("v", local) or ("len", container root); None if
+    not linear / not single-assignment"""
+    if op_is_const(o):
+        v = const_int(o)
+        return ({}, v) if v is not None else None
+    pl = op_place(o)
+    l = pl["l"]
+    proj = pl["p"]
+    if depth == 0:
+        return ({("v", l): 1}, 0) if not proj else None
+    defs = prov.build_defs(b).get(l, ())
+    if proj:
+        # (_t.0) of a checked add/sub
+        if len(proj) == 1 and isinstance(proj[0], dict) and str(proj[0].get("f", "")) in ("0",) or (len(proj) == 1 and isinstance(proj[0], dict) and str(proj[0].get("f", "")).endswith(".0")):
+            if len(defs) == 1 and defs[0][0] == "stmt" and defs[0][2]["r"]["k"] == "bin":
+                return _lin_bin(b, defs[0][2]["r"], depth)
+        return None
+    if (1 <= l <= b.nargs and not defs) or len(defs) != 1:
+        return ({("v", l): 1}, 0)
+    kind, db, d = defs[0]
+    if kind == "call":
+        f = d["f"] or ""
+        if re.search(r"::len$", f) and d["a"]:
+            root = _container_root(b, d["a"][0])
+            if root is not None:
+                return ({("len", root): 1}, 0)
+        return ({("v", l): 1}, 0)
+    if d["l"]["p"]:
+        return ({("v", l): 1}, 0)
+    r = d["r"]
+    if r["k"] == "use":
+        f = linform(b, r["o"], depth - 1)
+        return f if f is not None else ({("v", l): 1}, 0)
+    if r["k"] == "bin":
+        f = _lin_bin(b, r, depth)
+        return f if f is not None else ({("v", l): 1}, 0)
+    if r["k"] == "cast" and r.get("from") == r.get("ty"):
+        f = linform(b, r["o"], depth - 1)
+        return f if f is not None else ({("v", l): 1}, 0)
+    if r["k"] in ("len", "ptrmeta") or (r["k"] == "un" and r.get("op") == "PtrMetadata"):
+        src = r.get("o") or ({"cp": r["p"]} if "p" in r else None)
+        root = _container_root(b, src) if src else None
+        if root is not None:
+            return ({("len", root): 1}, 0)
+    return ({("v", l): 1}, 0)
+
+
+def _lin_bin(b, r, depth):
+    op = r["op"].replace("WithOverflow", "")
+    if op not in ("Add", "Sub"):
+        return None
+    A = linform(b, r["a"], depth - 1); C = linform(b, r["b"], depth - 1)
+    if A is None or C is None:
+        return None
+    sgn = 1 if op == "Add" else -1
+    atoms = dict(A[0])
+    for k, v in C[0].items():
+        atoms[k] = atoms.get(k, 0) + sgn * v
+        if atoms[k] == 0:
+            del atoms[k]
+    return (atoms, A[1] + sgn * C[1])
+
+
+def length_guard_verdict(b, bb, index_op, len_op):
+    """'ok' if a dominating test proves len >= index + 1, 'short' if comparable length tests exist
+    but the strongest proves less, None if nothing comparable was found"""
+    I = linform(b, index_op)
+    L = linform(b, len_op)
+    if I is None or L is None or len(L[0]) != 1 or L[1] != 0:
+        return None
+    latom = next(iter(L[0]))
+    if latom[0] != "len" or L[0][latom] != 1 or latom in I[0]:
+        return None
+    best = None
+    for d, blk in enumerate(b.bbs):
+        t = blk["t"]
+        if t["k"] != "switch" or blk.get("cleanup"):
+            continue
+        dl = op_local(t["d"])
+        cmp_ = None
+        for st in blk["s"]:
+            if st["k"] == "=" and st["l"]["l"] == dl and st["r"]["k"] == "bin" and st["r"]["op"] in ("Lt", "Le", "Gt", "Ge"):
+                cmp_ = st["r"]
+        if cmp_ is None:
+            continue
+        ts = dict(t["ts"])
+        for truth, tgt in ((True, t["o"]), (False, ts.get(0))):
+            if tgt is None or bb not in cfg.edge_dom_set(b, d, tgt):
+                continue
+            A = linform(b, cmp_["a"]); C = linform(b, cmp_["b"])
+            if A is None or C is None:
+                continue
+            op = cmp_["op"]
+            # normalise to  X >= Y + k   (X, Y forms)
+            if op in ("Gt", "Ge"):
+                A, C = C, A
+                op = "Lt" if op == "Gt" else "Le"
+            # now: A < C  or A <= C
+            if truth:
+                X, Y, k = C, A, (1 if op == "Lt" else 0)      # C >= A + k
+            else:
+                X, Y, k = A, C, (0 if op == "Lt" else 1)      # A >= C + k
+            # X must be len (+ const), Y comparable with I
+            xa = dict(X[0])
+            if xa.get(latom) != 1:
+                continue
+            del xa[latom]
+            ya = dict(Y[0])
+            for a_, c_ in xa.items():
+                ya[a_] = ya.get(a_, 0) - c_
+                if ya[a_] == 0:
+                    del ya[a_]
+            if ya != I[0]:
+                continue
+            # len >= Y.const - X.const + k  + atoms(I)   => margin over index
+            margin = (Y[1] - X[1] + k) - I[1]
+            best = margin if best is None else max(best, margin)
+    if best is None:
+        return None
+    return "ok" if best >= 1 else "short"
+
+
+
+def range_ends(b, o, depth=4):
+    """(start, end) operands of a Range / RangeInclusive value, or None (one-sided ranges)"""
+    if op_is_const(o) or depth == 0:
+        return None
+    l = op_place(o)["l"]
+    for kind, bbi, x in prov.build_defs(b).get(l, ()):
+        if kind == "call" and re.search(r"^std::ops::RangeInclusive::<.*>::new$", x["f"] or "") and len(x["a"]) == 2:
+            return (x["a"][0], x["a"][1])
+        if kind == "stmt" and x["r"]["k"] == "agg" and re.match(r"^std::ops::Range(Inclusive)?(::<.*>)?$|^std::ops::Range$", x["r"]["a"]) and len(x["r"]["o"]) == 2:
+            return (x["r"]["o"][0], x["r"]["o"][1])
+        if kind == "stmt" and x["r"]["k"] == "use" and not op_is_const(x["r"]["o"]):
+            r = range_ends(b, x["r"]["o"], depth - 1)
+            if r:
+                return r
+    return None
+
+
+def range_order_known(T, b, bb, start, end):
+    """is start <= end (+1) established where the range is used?  (a) a controlling comparison
+    between the two values (either direction: one edge is the empty/err exit), (b) end is computed
+    from start by an addition / max with start, (c) the linear forms differ by a constant >= -1"""
+    Rs = T.copy_roots(b, start) | T.cast_siblings(b, start) | _through_casts(T, b, start)
+    Re = T.copy_roots(b, end) | T.cast_siblings(b, end) | _through_casts(T, b, end)
+    for d, blk in enumerate(b.bbs):
+        t = blk["t"]
+        if t["k"] != "switch" or blk.get("cleanup"):
+            continue
+        dl = op_local(t["d"])
+        for st in blk["s"]:
+            if st["k"] == "=" and st["l"]["l"] == dl and st["r"]["k"] == "bin" and st["r"]["op"] in ("Lt", "Le", "Gt", "Ge"):
+                A = T.copy_roots(b, st["r"]["a"]) | T.cast_siblings(b, st["r"]["a"]) if not op_is_const(st["r"]["a"]) else set()
+                C = T.copy_roots(b, st["r"]["b"]) | T.cast_siblings(b, st["r"]["b"]) if not op_is_const(st["r"]["b"]) else set()
+                if (A & Rs and C & Re) or (A & Re and C & Rs):
+                    if any(bb in cfg.edge_dom_set(b, d, tgt) for tgt in set(b.succs(d))):
+                        return True
+    # (b) end derived from start
+    P = prov.operand_origins(b, end, deep=True)
+    sl = op_place(start)["l"]
+    if sl in {r[1] for r in P.roots if r[0] in ("local",)}:
+        return True
+    for f_, bbi in P.via:
+        pass
+    Fs = linform(b, start); Fe = linform(b, end)
+    if Fs is not None and Fe is not None and Fs[0] == Fe[0] and Fe[1] - Fs[1] >= -1:
+        return True
+    # end = max(start, ..) / start = min(start, end)
+    for kind, db, x in prov.build_defs(b).get(op_place(end)["l"], ()):
+        if kind == "call" and re.search(r"::max$|cmp::max::<", x["f"] or "") and any(not op_is_const(a) and (T.copy_roots(b, a) & Rs) for a in x["a"]):
+            return True
+    for kind, db, x in prov.build_defs(b).get(op_place(start)["l"], ()):
+        if kind == "call" and re.search(r"::min$|cmp::min::<", x["f"] or "") and any(not op_is_const(a) and (T.copy_roots(b, a) & Re) for a in x["a"]):
+            return True
+    return False
+
+
+
+def _through_casts(T, b, o, depth=6):
+    """roots of a value seen through plain copies and integer casts (`x as usize`)"""
+    out = set()
+    if op_is_const(o) or depth == 0:
+        return out
+    l = op_place(o)["l"]
+    out |= T.copy_roots(b, o)
+    for r_ in list(out) + [l]:
+        for kind, db, x in prov.build_defs(b).get(r_, ()):
+            if kind != "stmt" or x["l"]["p"]:
+                continue
+            r = x["r"]
+            if r["k"] == "cast" and not op_is_const(r["o"]):
+                out |= _through_casts(T, b, r["o"], depth - 1)
+            elif r["k"] == "use" and not op_is_const(r["o"]):
+                pl = op_place(r["o"])
+                # `(_t.k)` of a tuple built here: the k-th operand of the aggregate
+                if len(pl["p"]) == 1 and isinstance(pl["p"][0], dict) and str(pl["p"][0].get("f", "")).isdigit():
+                    k = int(pl["p"][0]["f"])
+                    for k2, db2, x2 in prov.build_defs(b).get(pl["l"], ()):
+                        if k2 == "stmt" and not x2["l"]["p"] and x2["r"]["k"] == "agg" and x2["r"]["a"] == "tuple" and k < len(x2["r"]["o"]):
+                            out |= _through_casts(T, b, x2["r"]["o"][k], depth - 1)
+    return out
